@@ -1,5 +1,6 @@
 """C20 — difficulty compact encoding and work order (common/difficulty). Family Difficulty, reference model on byte sequences."""
 import json
+import os
 import random
 
 FAMILY = 'Difficulty'
@@ -19,8 +20,11 @@ PROPS = {
              '32-bit words and integers) are validated by the trace specification.',
         note='The exhaustive sweep over all 2^32 compact values named in the quantifier is out of reach of TLC (32-bit integers, '
              '256-bit and larger codomain): the specification works on byte sequences over a stratified domain covering every '
-             'exponent, both signs and the mantissa boundaries plus seeded mantissas (about 1e4 words quick, 3e5 thorough); '
-             'arbitrary words are only sampled (recordings). Work monotonicity is compared for positive targets only: '
+             'exponent, both signs and the mantissa boundaries plus seeded mantissas (about 1e4 words quick, 5e5 thorough); '
+             'arbitrary words are otherwise only swept outside TLC (thorough: all 2^24 sign/mantissa combinations of ten exponents and a '
+             '1/127 stride of the others, or all 2^32 words with VERIF_C20_FULL=1 -- executed twice on the pinned tree with no '
+             'candidate -- against a Go transcription of the model calibrated on every TLC row; a candidate is re-decided by a TLC '
+             'export) and sampled by recordings. Work monotonicity is compared for positive targets only: '
              'CalcWork answers 0 for zero/negative targets by design (invalid blocks), which the clause read literally would forbid. '
              'Only the order of the work is compared, not its value. Negative integers that are not exactly representable and '
              'integers beyond the format\'s range (>= 2^2039) are not compared.',
@@ -62,6 +66,40 @@ def behaviours(res):
     return bs
 
 
+def sweep_all(ctx, b, bs, ints):
+    """Supplementary: all 2^24 sign/mantissa combinations of ten exponents (0..5, 255, three seeded) and every 127th
+    mantissa of every other exponent (VERIF_C20_FULL=1: all 2^32 words, about 70 CPU-minutes) against a Go transcription
+    of the model that must first reproduce every TLC row (candidate finder only: a candidate becomes a verdict only
+    through a TLC-exported row, see sweep.go)."""
+    p = ctx.write_behaviours(bs, 'calib.ndjson')
+    outp = os.path.join(ctx.scratch, 'sweep.json')
+    full = os.environ.get('VERIF_C20_FULL') == '1'
+    rnd = random.Random(ctx.seed + 17)
+    exps = sorted({0, 1, 2, 3, 4, 5, 255} | set(rnd.sample(range(6, 255), 3)))
+    opt = 'shards=8,mstride=1' if full else 'shards=8,mstride=127,exps=' + '+'.join(str(e) for e in exps)
+    rc, out = vlib.sh([b, 'sweep', '--seed', str(ctx.seed), '--opt', opt, p, outp], timeout=14400, env=dict(GOGC='800'))
+    if rc != 0 or not os.path.exists(outp):
+        raise vlib.Broken('sweep failed rc=%d:\n%s' % (rc, out[-3000:]))
+    sw = json.load(open(outp))
+    if full and sw['words'] != 2 ** 32:
+        raise vlib.Broken('sweep incomplete: %d words' % sw['words'])
+    cands = (sw.get('candidates') or []) + (sw.get('work_candidates') or [])
+    vlib.log('[sweep] %d words, %d calibration rows, work chain of %d canonical targets, %d candidates'
+             % (sw['words'], sw['calibration_rows'], sw['work_chain'], len(cands)))
+    ctx.extra['sweep_all_words'] = dict(words=sw['words'], calibration_rows=sw['calibration_rows'], work_chain=sw['work_chain'],
+                                        candidates=len(cands), full_2_32=full, fully_swept_exponents=('all' if full else exps),
+                                        note='candidate finder outside TLC: Go transcription of Decode/Canon calibrated on every TLC row; '
+                                             'candidates are re-decided by a TLC export')
+    if cands:
+        ms = sorted({c[2] for c in cands})[:40]
+        st = ctx.stage()
+        ctx.write_cfg(st, 'cand.cfg', cfg(ms, ms, [], [1], [0], [0], [0], [0], 16))
+        bs2 = behaviours(ctx.tlc_mc('Difficulty_MC', 'cand.cfg', workers=4, timeout=9000, stage=st))
+        for x in bs2:
+            x['id'] = 'cand-' + x['id']
+        ctx.replay(b, bs2, par=8, timeout=3000, opts=dict(cand=1))
+
+
 def run(ctx):
     q = ctx.tier == 'quick'
     rnd = random.Random(ctx.seed)
@@ -70,7 +108,7 @@ def run(ctx):
                 'the model\'s increasing order; non-trivial = a behaviour containing a boundary row (exponent <= 3, zero or sign-bit-adjacent '
                 'mantissa, set sign bit, integer of <= 3 bytes or with leading byte >= 0x80) or an order chain; recordings count their '
                 'distinct boundary words')
-    nextra = 4 if q else 560
+    nextra = 4 if q else 960
     extras = [rnd.randrange(1, 1 << 23) for _ in range(nextra)] + [rnd.randrange(1, 1 << 15) for _ in range(2 if q else 20)]
     mants = BOUNDARY + extras
     mantsu = BOUNDARY + extras[:2 if q else 12]
@@ -100,6 +138,8 @@ def run(ctx):
     ctx.exhaustive = False
     b = vlib.build(DRIVER)
     ctx.replay(b, bs, par=8, timeout=3000)
+    if not q:
+        sweep_all(ctx, b, bs, (enclens, b1, b2, b3, b4, fill))
     ctx.validate_recording(b, 'Difficulty_Trace', 'Difficulty_Trace.cfg', opts=dict(n=900 if q else 6000), selftest=True,
                            timeout=2400 if q else 9000)
     if not q:
